@@ -10,7 +10,7 @@
    functions, function names as values, pipes, default / named arguments, assignment, self / mem / delay, declared sum types
    with constructor application and `match` (literal / `_` / constructor / tuple patterns), `self` of any first-order data
    type); `par` / `ret` are the parameter / return-type annotations the program text carries, `sums` its sum type declarations (`mkAnn` = the strict configuration: types are compared by
-   equality; the lenient configuration `mkLenient` exists only for the comparison harness and has no theorem).  The reference semantics `xrun fuel p rows` (Lmmx/Ref.v, the semantics
+   equality; the lenient configuration `mkLenient` exists only for the comparison harness: its only theorem is that it is an upper bound).  The reference semantics `xrun fuel p rows` (Lmmx/Ref.v, the semantics
    the real backends are compared with by checks/lmmx_part.py, C02) answers `Ok outputs`, `OutOfFuel`, or `Stuck code`
    (unbound variable, operand that is not a number, projection of a non-tuple, missing field, call of a non-function, arity
    mismatch, pattern mismatch, assignment to a non-variable, missing default, dangling reference, NO ARM of a match applies).
@@ -74,7 +74,7 @@ Proof. exact types_preservation. Qed.
        every value of that type) and the patterns are exhaustive (an irrefutable arm, or one arm per constructor of the sum
        type), hence the first-match search of the reference semantics returns an arm, and that arm matched; *)
 Theorem C03_types_match_finds_arm : forall an G ts arms tys SC v,
-  tc_arms an false G ts arms = Some tys -> exhaustive ts (map fst arms) = true -> vtyp SC ts v ->
+  tc_arms an G ts arms = Some tys -> exhaustive ts (map fst arms) = true -> vtyp SC ts v ->
   exists i m body, find_arm arms v 0 = Ok (i, m, body) /\ nth_error arms i = Some (m, body) /\ mtest m v = Ok true.
 Proof. exact find_arm_typed. Qed.
 
@@ -95,7 +95,8 @@ Proof. exact (fun a b => conj (ty_eqb_eq a b) (fun E => eq_ind a (fun b => ty_eq
 
 (* The comparison harness also runs the checker in its LENIENT configuration `mkLenient` (Lmmt/Check.v: tuples of equal
    length, argument lists of equal width, records and function types compare as equal; operators, delay, spread calls, dsp
-   outputs and default values are not checked) as an upper bound of what the real type checker lets through.  It accepts
+   outputs and default values are not checked; a match on a tuple needs no `_` arm; a constructor written without its payload
+   is a function value) as an upper bound of what the real type checker lets through.  It accepts
    everything the checker accepts, with the same answer — and it is, of course, NOT sound. *)
 Theorem C03_types_lenient_upper_bound : forall par ret sums p info,
   tc_prog (mkAnn par ret sums) p = Some info -> tc_prog (mkLenient par ret sums) p = Some info.
@@ -104,6 +105,32 @@ Proof. exact tc_prog_extends. Qed.
 Example C03_types_lenient_is_unsound :
   tc_prog an0 bad_operand = None /\ ret_of (mkLenient [] [] []) bad_operand = Some TNum /\ xrun 20 bad_operand [[]] = Stuck E_NOTNUM.
 Proof. exact bad_operand_lenient. Qed.
+
+(* The lenient configuration FOLLOWS THE REPAIRS of typing.rs: the patterns of a match are checked against the scrutinee type by
+   the same function in both configurations (finding T8), the arms must have one type (T6), a match on a number needs a `_` arm
+   (T7 on numbers), a constructor without its payload is no sum value a pattern could meet (T9 as a scrutinee): the witnesses of
+   the repaired findings are rejected in the lenient configuration too, so a regression of typing.rs leaves the sandwich
+   "strict <= real <= lenient" and is reported by checks/lmmt_part.py ... *)
+Example C03_types_lenient_rejects_T6_match_arms : tc_prog (mkLenient [] [] []) bad_match_arms = None.
+Proof. exact lenient_rejects_T6_match_arms. Qed.
+Example C03_types_lenient_rejects_T7_match_on_number : tc_prog (mkLenient [] [] []) bad_match_nonexhaustive = None.
+Proof. exact lenient_rejects_T7_number. Qed.
+Example C03_types_lenient_rejects_T8_patterns :
+  tc_prog len_T bad_pattern_type = None /\ tc_prog len_T bad_pat_ctor_on_number = None /\ tc_prog len0 bad_pat_tuple_on_number = None /\
+  tc_prog len0 bad_pat_tuple_longer = None /\ tc_prog len_T bad_pat_binder_no_payload = None /\ tc_prog len_T bad_pat_payload_tuple = None.
+Proof. exact lenient_rejects_T8_patterns. Qed.
+Example C03_types_lenient_rejects_T9_scrutinee : tc_prog len_T bad_ctor_arity = None.
+Proof. exact lenient_rejects_T9_scrutinee. Qed.
+(* ... while what typing.rs still lets through stays inside the upper bound (and outside the checker: the first program is stuck) *)
+Example C03_types_lenient_accepts_T7_match_on_tuple :
+  tc_prog an0 res_match_tuple_nonexhaustive = None /\ ret_of len0 res_match_tuple_nonexhaustive = Some TNum /\
+  xrun 20 res_match_tuple_nonexhaustive [[]; []; []] = Stuck E_NOMATCH.
+Proof. exact lenient_accepts_T7_tuple. Qed.
+Example C03_types_lenient_accepts_T9_constructor_as_function :
+  tc_prog an_T res_ctor_as_function = None /\ ret_of len_T res_ctor_as_function = Some TNum /\
+  tc_prog (mkAnn [(2%N, TFn [TNum] ty_T)] [] sums_T) res_ctor_passed_as_function = None /\
+  ret_of (mkLenient [(2%N, TFn [TNum] ty_T)] [] sums_T) res_ctor_passed_as_function = Some TNum.
+Proof. exact lenient_accepts_T9_function_value. Qed.
 
 (* ---- the hypotheses are satisfiable: closure programs are accepted (and run: Props/C02_ext.v) ---- *)
 Example C03_types_ex_counter : ret_of an0 ex_counter = Some TNum /\ xrun 20 ex_counter rows4 = Ok [[1]; [2]; [3]; [4]]%Z.
@@ -154,9 +181,9 @@ Proof. exact ex_tuple_self_typed. Qed.
 Example C03_types_ex_match_arm_state : ret_of an0 ex_match_arm_state = Some TNum.
 Proof. exact ex_match_arm_state_typed. Qed.
 (* typing.rs accepted this one until the repair of finding T7 (no exhaustiveness check on numbers; now `Match expression is not
-   exhaustive. Missing patterns: _`); the lenient configuration, which is an upper bound only, still lets it through *)
+   exhaustive. Missing patterns: _`); the lenient configuration follows the repair *)
 Example C03_types_rejects_nonexhaustive_match :
-  tc_prog an0 bad_match_nonexhaustive = None /\ ret_of (mkLenient [] [] []) bad_match_nonexhaustive = Some TNum /\
+  tc_prog an0 bad_match_nonexhaustive = None /\ tc_prog (mkLenient [] [] []) bad_match_nonexhaustive = None /\
   xrun 20 bad_match_nonexhaustive [[]; []] = Stuck E_NOMATCH.
 Proof. exact bad_match_nonexhaustive_rejected. Qed.
 Example C03_types_rejects_missing_constructor :
@@ -167,7 +194,7 @@ Proof. exact bad_payload_type_rejected. Qed.
 Example C03_types_rejects_constructor_arity : tc_prog an_T bad_ctor_arity = None /\ xrun 20 bad_ctor_arity [[]] = Stuck E_NOTNUM.
 Proof. exact bad_ctor_arity_rejected. Qed.
 Example C03_types_rejects_pattern_type :
-  tc_prog an_T bad_pattern_type = None /\ ret_of (mkLenient [] [] sums_T) bad_pattern_type = Some TNum /\
+  tc_prog an_T bad_pattern_type = None /\ tc_prog (mkLenient [] [] sums_T) bad_pattern_type = None /\
   xrun 20 bad_pattern_type [[]] = Stuck E_PAT.
 Proof. exact bad_pattern_type_rejected. Qed.
 Example C03_types_rejects_match_arms : tc_prog an0 bad_match_arms = None /\ xrun 20 bad_match_arms [[]; []] = Stuck E_NOTNUM.
